@@ -85,6 +85,10 @@ class OsSub(OSError):
         super().__init__(7, a)
 
 
+class UniSub(UnicodeError):
+    """a direct subclass of UnicodeError: no object / start / end attributes (those belong to the Decode/Encode/Translate subclasses)"""
+
+
 class NoArgs(Exception):
     def __init__(self, a):
         super().__init__()
@@ -100,6 +104,10 @@ EXC = {
     'Custom': lambda k: Custom(k, {'x': 1}), 'Shouty': lambda k: Shouty(k), 'RuntimeError': lambda k: RuntimeError(k),
     'KeyboardInterrupt': lambda k: KeyboardInterrupt(k), 'SystemExit': lambda k: SystemExit(3), 'RecursionError': lambda k: RecursionError(k),
     'OSError': lambda k: OSError(5, k),
+    'UnicodeError': lambda k: UnicodeError(k), 'UniSub': lambda k: UniSub(k),
+    'UnicodeEncodeError': lambda k: UnicodeEncodeError('ascii', 'h\xe9', 1, 2, k),
+    'UnicodeTranslateError': lambda k: UnicodeTranslateError('h\xe9', 1, 2, k),
+    'LookupError': lambda k: LookupError(k), 'ValueError': lambda k: ValueError(k, 'v'), 'EOFError': lambda k: EOFError(),
 }
 
 SITES = [
@@ -434,6 +442,11 @@ def reproduce_finding(ctx, f):
             PageTemplate(FIND_SRC)(boom=boom)
         except Exception as e:
             return ' - Expression:' not in str(e)
+    if f['id'] == 'D-12f':
+        try:
+            PageTemplate('<p>${x &gt; 1 and missing}</p>')(x=2)
+        except Exception as e:
+            return ' - Expression: "x &gt; 1 and miss"' in str(e)
     return None
 
 
